@@ -106,7 +106,9 @@ func expectSeq(set string, uids []uint32) expect {
 		return ex
 	}
 	if n == 0 && hasStar {
-		ex.unjudged = true // '*' in an empty mailbox: not decided by the statement
+		// '*' is the highest sequence number in use; in an empty mailbox there is none, so it addresses a message
+		// beyond the count like any other number does (the unchanged server answers BAD in every command)
+		ex.bad = true
 		return ex
 	}
 	for _, r := range ranges {
